@@ -115,8 +115,10 @@ def check_value(v: str, dialect: str, kind: str, opts: dict):
                 except Exception:
                     alone[k] = None   # this kind does not render / lex on its own here: judged (or excused) by its own kind
             for k1, k2 in itertools.permutations(makers, 2):
-                if not alone[k1] or not alone[k2] or len(alone[k1]) != 1 or len(alone[k2]) != 1:
-                    continue   # a kind this dialect has no literal form for (renders to nothing or to a call) is not a quoted piece here
+                if not alone[k1] or not alone[k2] or len(alone[k1]) != 1 or len(alone[k2]) != 1 or alone[k1][0][1] != v or alone[k2][0][1] != v:
+                    # a kind this dialect has no literal form for (renders to nothing or to a call), or that does not carry this value
+                    # on its own (its own kind's finding), is not a piece whose neighbour could be blamed
+                    continue
                 sql = gen(exp.Tuple(expressions=[makers[k1](v), makers[k2](v)]), dialect, opts)
                 got = [(t.token_type, t.text) for t in toks(dialect, sql)]
                 want_mid = alone[k1] + [(TokenType.COMMA, ",")] + alone[k2]
